@@ -1,3 +1,8 @@
+//! Reference model (no bnum dependency): exact integers, spec functions, value sets, and the
+//! explorer source.  The explorer (`engine.rs`) is compiled twice: here, bound to Rust's primitive
+//! integers for the model self-check, and in `vengine` (via #[path]), bound to the bnum types.
+extern crate self as refmodel;
+
 pub mod big;
 pub mod engine;
 pub mod json;
@@ -7,7 +12,6 @@ pub mod spec;
 pub mod znum;
 
 pub use big::BigRef;
-pub use engine::*;
 pub use json::J;
 pub use sets::Tier;
 pub use spec::Ctx;
